@@ -557,11 +557,11 @@ func c19Oracle(c *C19Case) string {
 		// delimiter can be set, so the comparison only applies to the default one)
 		if c.ViaNew && len(d.Root.G.Groups) > 0 && d.NsDelim == nil {
 			// the NewParser path reports the declaration error on first use
-			bl := &builder{b: &Built{D: d, OptVal: map[string]reflect.Value{}, PlainVal: map[string]reflect.Value{}, PlainIni: map[string]interface{}{}, PosVal: map[string]reflect.Value{}, Cmds: map[string]*flags.Command{}}, d: d}
+			bl := &builder{b: &Built{D: d, OptVal: map[string]reflect.Value{}, PlainVal: map[string]reflect.Value{}, PlainIni: map[string]interface{}{}, PosVal: map[string]reflect.Value{}, Cmds: map[string]*flags.Command{}, Detached: map[string]string{}}, d: d}
 			g0 := &d.Root.G.Groups[0]
 			tp := bl.groupType(g0, &d.Root)
 			v := reflect.New(tp)
-			bl.bindGroup(d.Root.ID, g0.Field, g0, v.Elem(), &d.Root)
+			bl.bindGroup(d.Root.ID, g0.Field, g0, v.Elem(), &d.Root, 0, false, "")
 			p := flags.NewParser(v.Interface(), flags.None)
 			p.SubcommandsOptional = true
 			_, err := p.ParseArgs(nil)
